@@ -26,6 +26,17 @@ pub(crate) mod verif_kani_names {
     fnalias!(c11_fn_caps2, Function::HasCapabilities, "has_capabilities", "has_caps");
     fnalias!(c11_fn_kana, Function::ContainsKana, "contains_kana", "kana");
     fnalias!(c11_fn_agg, Function::Count, "count", "COUNT", "Count");
+/*GENERATED_FUNCTION_TABLE*/
+    // C11: exactly the documented argument-less functions may be written without `()`
+    #[kani::proof]
+    fn c11_argless_table() {
+        let k: u8 = kani::any();
+        kani::assume(k < N_FUNCTIONS);
+        kani::cover!(k == N_FUNCTIONS - 1);
+        let f = function_at(k);
+        let documented = matches!(f, Function::CurrentDate | Function::CurrentUid | Function::CurrentUser | Function::CurrentGid | Function::CurrentGroup);
+        assert!(f.is_argumentless_function() == documented, "OBL C11.argless.table");
+    }
     #[kani::proof]
     #[kani::unwind(20)]
     fn canary_fnnames_must_fail() { assert!(Function::from_str("len") == Ok(Function::Lower), "CANARY must fail"); }
